@@ -20,7 +20,11 @@ func runConcCase(c Case, st *Stats, prop string) error {
 	}
 	structs := c.Cfg.Mode == 0
 	root := newDir("conc")
-	defer os.RemoveAll(root)
+	if os.Getenv("VERIF_DEBUG") == "" {
+		defer os.RemoveAll(root)
+	} else {
+		fmt.Println("DEBUG root:", root)
+	}
 	var dirs []string
 	var dbs []*nutsdb.DB
 	var hs []*DBH
@@ -52,6 +56,9 @@ func runConcCase(c Case, st *Stats, prop string) error {
 		}
 	}()
 	newRaceReports() // drain reports of earlier cases
+	if p.NoList {
+		st.Exclude("c15-merge-list-duplication")
+	}
 	res := runConc(c, dirs, dbs, root)
 	if res.Deadlock != "" {
 		if strings.HasPrefix(res.Deadlock, "TIMEOUT-NOT-A-LOCK-WAIT") {
@@ -62,11 +69,19 @@ func runConcCase(c Case, st *Stats, prop string) error {
 	if res.Panic != "" {
 		return fmt.Errorf("a transaction panicked: %s", res.Panic)
 	}
-	// final state per database
+	// final state per database (the backups are judged below, once their copies have been read)
+	var txRecs []concRec
+	for _, r := range res.Recs {
+		if r.Kind != "backup" {
+			txRecs = append(txRecs, r)
+		} else if r.Err != "" {
+			return fmt.Errorf("Backup into a new directory failed: %s", r.Err)
+		}
+	}
 	for i := range dbs {
 		final := map[string]int{}
 		finalVer := 0
-		var finalList []int
+		var finalList, finalSet []int
 		tx, err := dbs[i].Begin(false)
 		if err != nil {
 			return fmt.Errorf("final read failed: %v", err)
@@ -75,9 +90,10 @@ func runConcCase(c Case, st *Stats, prop string) error {
 		final = readKeys(tx, concKeys)
 		if structs {
 			finalList = readList(tx)
+			finalSet = readSet(tx)
 		}
 		_ = tx.Rollback()
-		if err := checkConc(res.Recs, i, structs, final, finalVer, finalList, true); err != nil {
+		if err := checkConc(txRecs, i, structs, p.NoList, final, finalVer, finalList, finalSet, true); err != nil {
 			return fmt.Errorf("db%d: %v", i, err)
 		}
 	}
@@ -101,17 +117,21 @@ func runConcCase(c Case, st *Stats, prop string) error {
 		r.Ver, _ = readVer(tx)
 		r.Vals = readKeys(tx, concKeys)
 		r.Scan, r.Scan2 = readScans(tx)
+		if os.Getenv("VERIF_DEBUG") != "" {
+			fmt.Println("DEBUG backup read:", r.Dir, r.Ver, r.Vals, r.Scan, r.Scan2)
+		}
 		if structs {
 			r.List = readList(tx)
 			if r.List == nil {
 				r.List = []int{}
 			}
+			r.Set = readSet(tx)
 		}
 		_ = tx.Rollback()
 		h.Close()
 	}
 	if nBackups > 0 {
-		if err := checkConc(res.Recs, 0, structs, nil, 0, nil, false); err != nil {
+		if err := checkConc(res.Recs, 0, structs, p.NoList, nil, 0, nil, nil, false); err != nil {
 			return fmt.Errorf("backup: %v", err)
 		}
 	}
@@ -143,6 +163,42 @@ func runConcCase(c Case, st *Stats, prop string) error {
 		}
 	}
 	classes := []string{fmt.Sprintf("mode%d", c.Cfg.Mode), fmt.Sprintf("dbs%d", p.DBs)}
+	mergesOK, mergesOverlapped, backupsOverlapped := 0, 0, 0
+	for _, a := range res.Recs {
+		if (a.Kind != "merge" && a.Kind != "backup") || a.Err != "" {
+			continue
+		}
+		over := false
+		for _, b := range res.Recs {
+			if b.Kind == "" && b.DB == a.DB && a.Inv < b.Ret && b.Inv < a.Ret && (a.Kind == "merge" || b.W) {
+				over = true
+			}
+		}
+		if a.Kind == "merge" {
+			mergesOK++
+			if over {
+				mergesOverlapped++
+			}
+		} else if over {
+			backupsOverlapped++
+		}
+	}
+	st.Class("merges-that-rewrote-or-removed-segments", mergesOK)
+	st.Class("merges-overlapping-a-transaction", mergesOverlapped)
+	st.Class("backups-overlapping-a-writer", backupsOverlapped)
+	if mergesOK > 0 {
+		classes = append(classes, "case-with-successful-merge")
+	}
+	if backupsOverlapped > 0 {
+		classes = append(classes, "case-with-backup-overlapping-writer")
+	}
+	nontrivial := ow+or >= 2
+	switch prop {
+	case "C17":
+		nontrivial = mergesOverlapped > 0
+	case "C18":
+		nontrivial = backupsOverlapped > 0
+	}
 	if ow > 0 {
 		classes = append(classes, "overlapping-writers")
 	}
@@ -150,7 +206,7 @@ func runConcCase(c Case, st *Stats, prop string) error {
 		classes = append(classes, "overlapping-reader")
 	}
 	st.Class("overlapping-pairs", ow+or)
-	st.Eval(c.JSON(), ow+or >= 2, classes...)
+	st.Eval(c.JSON(), nontrivial, classes...)
 	return nil
 }
 
@@ -168,4 +224,8 @@ func TestC14(t *testing.T) {
 
 func TestC17(t *testing.T) {
 	runProperty(t, "C17", genConcProg(8, []int{0, 1}, true, false), runC17)
+}
+
+func TestC18Conc(t *testing.T) {
+	runProperty(t, "C18", genConcProg(8, []int{0, 1, 2}, false, true), runC18)
 }
